@@ -75,6 +75,9 @@ const PgServerErrConnectionFailure = "08006"
 const ProgramLimitExceeded = "54000"
 const DataException = "22000"
 
+// PgServerErrInFailedSQLTransaction: a statement was sent inside a transaction block that an earlier error aborted
+const PgServerErrInFailedSQLTransaction = "25P02"
+
 var MTypes = map[byte]string{
 	'Q': "query",
 	'T': "rowDescription",
